@@ -13,6 +13,7 @@ ASSUME = [
     "sign convention derived from the maps: drift moves charge by -a*p, RF kick by +tan(a)*q, wake kick by -W cells",
     "energy spread of the stationary state within 0.8*delta^2 + 1e-3 of 1",
     "the bunch current is chosen by a pilot run so that the wake term over the core lies between 0.05 and about 1",
+    "API complement: a WakePotentialMap driven through sequences of profiles that change by 1e-9 ... 1e-2 per step must, after every update(), act bit-for-bit like a freshly built kick map given the wake potential of the current profile",
     "kick-drift splitting error O(a) limits sensitivity to scale errors of a few per cent (steps per period >= 400)",
 ]
 
@@ -22,8 +23,13 @@ def gen(seed, i, tier):
     kind = ["resistor", "wall", "csr"][i % 3]
     n = r.choice([128, 128, 192, 256] if tier == "thorough" else [128, 128, 160])
     steps = r.choice([400, 500, 800, 1000])
+    if i % 4 == 3:
+        n = r.choice([64, 80, 96])               # coarse mesh with very many steps per period: the wake creeps slowly
+        steps = r.choice([2000, 3000, 4000])
     d = 12.0 / (n - 1)
     e1 = min(r.uniform(1.5e-3, 3e-3), 0.25 * d * d)
+    if i % 4 == 1:
+        e1 = r.uniform(0.3, 0.45) * d * d        # upper part of the explicit scheme's stable range (e1/delta^2 < 0.5)
     target = r.loguniform(0.05, 1.0) if kind != 'csr' else r.loguniform(0.05, 0.15)   # shielded CSR goes unstable early
     o = dict(GridSize=n, StepsPerTs=steps, outstep=steps, SavePhaseSpace=0)
     if kind == "resistor":
@@ -36,6 +42,8 @@ def gen(seed, i, tier):
         o["PhaseSpaceShiftX"] = round(r.uniform(-2, 2), 2)
     if r.chance(0.3):
         o["InterpolationPoints"] = 3
+    if r.chance(0.5):
+        o["InitialDistZoom"] = r.choice([0.7, 1.4])     # relaxation "from any start"
     return kind, o, e1, target
 
 
@@ -122,6 +130,8 @@ def run(ctx):
     ctx.rule = ("case = (impedance: constant resistance file / resistive wall / shielded CSR; grid 128..256; 400..1000 steps per period; damping decrement; target potential-well strength 0.05..1; shift; interpolation) "
                 "relaxed for 20 damping times after a pilot run that fixes the current; non-trivial = passed the stationarity gate with the wake term inside the window")
     th = ctx.tier == "thorough"
+    core.run_harness(ctx, "c05", 6000 if th else 400)
+    core.run_harness(ctx, "c05", 400 if th else 48, variant="asan")
     n = 150 if th else 12
     sdir = ctx.scratch()
     pool = XdgPool(sdir, core.NCPU)
@@ -138,4 +148,4 @@ def run(ctx):
         for key, what, det in res["viol"]:
             ctx.violation(key, what, det)
         ctx.sample(dict(kind=res["kind"], options=res["opts"], current=res["current"], **res["A"]))
-    ctx.min_events = {"equilibria_judged": max(4, n // 2), "equilibria.resistor": 1, "equilibria.wall": 1, "equilibria.csr": 1}
+    ctx.min_events = {"updates_checked": 5000, "equilibria_judged": max(4, n // 2), "equilibria.resistor": 1, "equilibria.wall": 1, "equilibria.csr": 1}
